@@ -68,7 +68,7 @@ def _unscaled(ty, accessors, with_merge):
 
 def confirm_moment(ob, type_map=None):
     """type_map: obligation type name -> replay type name (e.g. Moments6 -> M6)."""
-    m = re.match(r"C\d+\.(\w+)\.", ob.name)
+    m = re.match(r"(?:C\d+\.premise\.)?C\d+\.(\w+)\.", ob.name)
     if not m:
         return None
     oty = m.group(1)
